@@ -24,7 +24,7 @@ m = {
         {"name": "translators", "path": "translate/", "serves_properties": sorted(PROPS),
          "kind_free_text": "t2.py: pure integer functions of /repo/src -> lean/Matreex/Gen/Core.lean; t1.py: tables (allocation order, scalar / elementwise / negation / parallel / conformability-guard forms, macro arms, auto-trait impls) -> lean/Matreex/Gen/*.lean; run first in every check"},
         {"name": "compile-probes", "path": "probes/", "serves_properties": ["C17"],
-         "kind_free_text": "68 generated client programs type-checked with cargo check against /repo; accept / reject verdict and diagnostic code compared with the Lean auto-trait model"},
+         "kind_free_text": "72 generated client programs type-checked with cargo check against /repo; accept / reject verdict and diagnostic code compared with the Lean auto-trait model"},
         {"name": "feature-configurations", "path": "fmtcfg/", "serves_properties": ["C20"],
          "kind_free_text": "the formatting operations of a C20 run recomputed against /repo built with no default features and with its default features; text compared with the full-feature harness"},
     ],
